@@ -693,7 +693,10 @@ class MacroProgram(ElementProgram):
         if self._interpolation[-1] and '${' in node:
             char_escape = ('&', '<', '>') if self.escape else ()
             expression = nodes.Substitution(node, char_escape)
-            return nodes.Interpolation(expression, True, translation)
+            return nodes.Interpolation(
+                expression, True, translation,
+                decode_htmlentities=self.escape
+            )
 
         node = node.replace('$$', '$')
 
